@@ -733,7 +733,11 @@ fn execute_inner(h: &History, seed_checks: usize, stats: &mut RunStats) -> Optio
             return Some(nonterm_found(&v, "fresh", "startup+didOpen", i));
         }
         stats.comparisons += 1;
-        if let Some((kind, msg)) = diag_diff(&long, &fresh) {
+        // With no buffer open the reference has had no occasion to publish anything (the server only
+        // publishes in reaction to buffer events), so "last published" is only compared when at least
+        // one document is open; request answers are compared in every state.
+        let diag = if world.open_order.is_empty() { None } else { diag_diff(&long, &fresh) };
+        if let Some((kind, msg)) = diag {
             return Some(Found {
                 class: "history_dependent_diagnostics".into(),
                 sig: format!("diag_mismatch:{}:after_{}", kind, method.rsplit('/').next().unwrap_or("")),
@@ -1403,6 +1407,13 @@ pub fn main(cli: &Cli) -> i32 {
     match cli.mode.as_deref() {
         Some("worker") => return worker(cli),
         Some("one") => return one(cli),
+        Some("gen") => {
+            // print the generated history of run --from (debugging aid)
+            let (_, max_events, seed_checks) = tier_params(cli.tier);
+            let h = gen_history(cli.seed, cli.opt_u64("from").unwrap_or(0), max_events);
+            println!("{}", serde_json::to_string_pretty(&case_json(&h, seed_checks)).unwrap());
+            return EXIT_OK;
+        }
         _ => {}
     }
     if let Some(p) = &cli.replay {
